@@ -497,6 +497,14 @@ pub enum InputKind {
 }
 
 impl InputKind {
+    /// What the input reports as `bufmaxlen()` (the scanner sizes its scalar buffers by it).
+    pub fn capacity(&self) -> usize {
+        match self {
+            InputKind::Str => 128,
+            InputKind::Buffered | InputKind::BufferedBare => 16,
+            InputKind::Ring(c, _) | InputKind::Slice(c) => *c,
+        }
+    }
     pub fn describe(&self) -> String {
         match self {
             InputKind::Str => "str".into(),
